@@ -11,6 +11,18 @@ SCHED_NOTE = ("Trusted: Lean kernel + propext/Quot.sound/Classical.choice; the h
               "Event resolution is outside this model (C03); floats of the implementation are compared, not proved.")
 
 CHECKS = {
+    "C08": dict(
+        text="Theorems for an ARBITRARY semantics of the operand patterns (any class, any nesting depth), any states, any number of "
+             "steps: one step of a binary operator takes a value from a, then (only if a yielded) from b, and applies the operator; "
+             "the i-th output is the operator applied to the i-th operand outputs while both yield; the result ends with the first "
+             "operand to end (b not consumed when a ends); operand exceptions propagate; a rest in either operand gives a rest; & is "
+             "truthiness of both. Python's operators on ints in closed form; ZeroDivisionError.",
+        design="DESIGN.md §3 C08",
+        note="Trusted: Lean kernel + standard axioms; CPython operator semantics are modelled in lean/IsobarV/Pat/Num.lean (unbounded "
+             "ints, floats as exact rationals) and validated by the correspondence only; reflected forms and unary minus are covered "
+             "by the correspondence (they are Python dispatch, the model sees the resulting operator node); irrational powers are "
+             "outside the model; generators keep inexact floats out of discontinuous operators.",
+        technique="Lean 4 theorems parametric in the sub-pattern semantics + element-wise oracle + differential correspondence"),
     "C13": dict(
         text="Theorems for ANY well-formed scale (non-empty, strictly ascending inside [0, octave)), any tonic, note, degree: degree "
              "formula with floor semantics, strict monotonicity, degree in key, membership = pitch class, rest in key, nearest note in "
